@@ -2463,6 +2463,11 @@ bool mmd_engine_has_metadata(mmd_engine * e, size_t * end) {
 		temp->table_stack->size = e->table_stack->size;
 
 
+		// Metadata read by an earlier check is about to be read again
+		while (e->metadata_stack->size) {
+			meta_free(stack_pop(e->metadata_stack));
+		}
+
 		// Tokenize the string (up until first empty line)
 		doc = mmd_tokenize_string(e, 0, e->dstr->currentStringLength, true);
 
@@ -2797,6 +2802,12 @@ void mmd_engine_update_metavalue_for_key(mmd_engine * e, const char * key, const
 		}
 	} else if (meta_end != 0) {
 		// We're appending metadata at the end
+		if (!char_is_line_ending(e->dstr->str[meta_end - 1])) {
+			// The last metadata line ends with the source, without a newline
+			d_string_insert_c(e->dstr, meta_end, '\n');
+			meta_end++;
+		}
+
 		d_string_insert(e->dstr, meta_end, temp->str);
 	} else {
 		// There is no metadata, so prepend before document
@@ -2806,6 +2817,9 @@ void mmd_engine_update_metavalue_for_key(mmd_engine * e, const char * key, const
 
 	d_string_free(temp, true);
 	free(clean);
+
+	// The source text changed -- anything derived from the old text is stale
+	mmd_engine_reset(e);
 }
 
 
